@@ -19,6 +19,7 @@ REPO = os.environ.get('VERIF_REPO', '/repo')
 
 # unit -> function -> list of replays
 REGISTRY = {
+    'uf': {'*': [dict(kind='harness', name='uf_partition')]},
     'disp': {
         'clear': [dict(kind='harness', name='disp_clear')],
     },
